@@ -494,7 +494,12 @@ fn shrink_via_subprocess(prop: &dyn Property, tier: Tier, case: &Case, sig: &str
 
 /// scratch workspaces of runs that were killed (their process is gone) are removed
 fn sweep_stale_scratch() {
-    let Ok(rd) = std::fs::read_dir("/dev/shm") else { return };
+    sweep_stale_scratch_in("/dev/shm");
+    sweep_stale_scratch_in(crate::ws::INC_DIR);
+}
+
+fn sweep_stale_scratch_in(dir: &str) {
+    let Ok(rd) = std::fs::read_dir(dir) else { return };
     for e in rd.flatten() {
         let name = e.file_name().to_string_lossy().to_string();
         let Some(rest) = name.strip_prefix("vcheck-ws-") else { continue };
